@@ -44,7 +44,9 @@ var _ plugintypes.Operator = (*pm)(nil)
 func newPM(options plugintypes.OperatorOptions) (plugintypes.Operator, error) {
 	data := options.Arguments
 
-	data = strings.ToLower(data)
+	// the matcher is ASCII-case-insensitive: only ASCII letters are folded (strings.ToLower would turn
+	// a listed "É" into "é", which then matches neither "É" nor, the input being folded in ASCII only, "é")
+	data = asciiToLower(data)
 	dict := strings.Split(data, " ")
 	builder := ahocorasick.NewAhoCorasickBuilder(ahocorasick.Opts{
 		AsciiCaseInsensitive: true,
@@ -110,4 +112,20 @@ func pmEvaluate(matcher ahocorasick.AhoCorasick, tx plugintypes.TransactionState
 
 func init() {
 	Register("pm", newPM)
+}
+
+// asciiToLower lower-cases the ASCII letters of s and leaves every other byte as it is.
+func asciiToLower(s string) string {
+	for i := 0; i < len(s); i++ {
+		if c := s[i]; c >= 'A' && c <= 'Z' {
+			b := []byte(s)
+			for j := i; j < len(b); j++ {
+				if b[j] >= 'A' && b[j] <= 'Z' {
+					b[j] += 'a' - 'A'
+				}
+			}
+			return string(b)
+		}
+	}
+	return s
 }
